@@ -2639,22 +2639,16 @@ void Validator::ValidatorImpl::checkUniqueResetOrders(const ModelPtr &model)
 
 void Validator::ValidatorImpl::addResetOrderMapItem(const VariablePtr &variable, int order, ResetOrderMap &resetOrderMap)
 {
-    auto currentVariable = variable;
-    bool existingVariableFound = resetOrderMap.count(currentVariable) > 0;
-    size_t i = 0;
-
-    while ((i < variable->equivalentVariableCount()) && !existingVariableFound) {
-        currentVariable = variable->equivalentVariable(i);
-        existingVariableFound = resetOrderMap.count(currentVariable) > 0;
-        ++i;
+    // Look for a variable of the same connected variable set (directly or indirectly equivalent) already in the map.
+    for (auto &entry : resetOrderMap) {
+        if ((entry.first == variable) || entry.first->hasEquivalentVariable(variable, true)) {
+            entry.second.emplace_back(order);
+            return;
+        }
     }
 
-    if (existingVariableFound) {
-        resetOrderMap[currentVariable].emplace_back(order);
-    } else {
-        std::vector<int> orders = {order};
-        resetOrderMap.emplace(variable, orders);
-    }
+    std::vector<int> orders = {order};
+    resetOrderMap.emplace(variable, orders);
 }
 
 void Validator::ValidatorImpl::traverseComponentTree(const ComponentPtr &component, ResetOrderMap &resetOrderMap)
